@@ -1,12 +1,21 @@
 (* Wait/notify correspondence (C16): the counts observed after every label
-   against the Sync model. *)
+   against the Sync model (coarse: one step per label) and, in lock step with it, against
+   the fine-grained Sync2 model driven by Sync2Run.apply_label (the label's step from
+   outside or through a gate, then every free step until nothing free is enabled). *)
 open Model
 open Conv
+
+(* sync2model.ml has its own copy of nat *)
+module M2 = Sync2model
+let rec n2_of_int (i : int) : M2.nat = if i <= 0 then M2.O else M2.S (n2_of_int (i - 1))
+let rec int_of_n2 (n : M2.nat) : int = match n with M2.O -> 0 | M2.S m -> 1 + int_of_n2 m
 
 let () =
   let files = List.tl (Array.to_list Sys.argv) in
   let cur_id = ref 0 and cur_seed = ref "" in
   let st : sy option ref = ref None in
+  let cfg2 : M2.config option ref = ref None in
+  let st2 : M2.state option ref = ref None in
   let steps = ref 0 and mism = ref 0 and nontriv = ref 0 and active = ref false in
   let finish () =
     if !active then Printf.printf "CASE %d seed=%s %s steps=%d nontrivial=%d\n" !cur_id !cur_seed
@@ -24,7 +33,10 @@ let () =
          | id :: Sexp.A seed :: cfg :: _ ->
              cur_id := int_of_sx id; cur_seed := seed; steps := 0; mism := 0; nontriv := 0; active := true;
              let cap = (match Sexp.field_exn "maxpre" (Sexp.args cfg) with [n] -> int_of_sx n | _ -> 1) in
-             st := Some (sy_init (nat_of_int cap))
+             st := Some (sy_init (nat_of_int cap));
+             (* ordinary cases only: no lower level (the scenario cases emit no sync lines) *)
+             let c2 = M2.cfg_sync (n2_of_int cap) in
+             cfg2 := Some c2; st2 := Some (M2.start c2)
          | _ -> failwith "case")
     | "sync" ->
         incr steps;
@@ -47,6 +59,34 @@ let () =
                   chk "closedret" s'.y_closed_ret (geti "closedret");
                   chk "syncret" s'.y_syncret (geti "syncret");
                   if int_of_nat s'.y_wait > 0 then incr nontriv;
+                  (* ---- the fine-grained model ---- *)
+                  (match !cfg2, !st2 with
+                   | Some c2, Some z ->
+                       let hl = (match label with
+                           | "arrive" -> M2.HArrive | "ingest" -> M2.HIngest | "cycleend" -> M2.HCycleEnd
+                           | "notifysync" -> M2.HNotifySync | _ -> M2.HClose) in
+                       (match M2.apply_label c2 z hl with
+                        | None ->
+                            (* the call from outside / the gated step of this label is not enabled in the
+                               model: it is not where the implementation is; stop stepping it for this case *)
+                            st2 := None;
+                            kinds := (Printf.sprintf "model2:not-enabled(mgate=%d,asleep=%b)"
+                                        (int_of_n2 (M2.obs_mgate z)) (M2.obs_asleep z)) :: !kinds
+                        | Some z' ->
+                            st2 := Some z';
+                            let chk2 name m i = if int_of_n2 m <> i then kinds := (Printf.sprintf "model2:%s(model=%d,impl=%d)" name (int_of_n2 m) i) :: !kinds in
+                            if not (M2.quiescent c2 z') then kinds := "model2:fuel(settle ran out of fuel)" :: !kinds;
+                            (* after Close the harness reports top 0 and blocked 0; the model's Close has run to its
+                               end by then (LCFinal empties the sections, every woken writer has returned) *)
+                            chk2 "top" (M2.obs_top z') (geti "top");
+                            chk2 "blocked" (M2.obs_blocked z') (geti "blocked");
+                            chk2 "ok" (M2.obs_ok z') (geti "ok");
+                            chk2 "closedret" (M2.obs_closedret z') (geti "closedret");
+                            (* famsync.go counts a synchronous NotifyMerger as returned whatever it returned (nil, or
+                               ErrClosed when it races with Close): answered + failed; while the collection is open
+                               the failed ones are 0 in the model, so this is exact there *)
+                            chk2 "syncret" (M2.obs_syncdone z') (geti "syncret"))
+                   | _, _ -> ());
                   let settle = (match Sexp.field "settle" items with Some [Sexp.A "ok"] -> true | _ -> false) in
                   let speck = ref [] in
                   if geti "top" > int_of_nat s'.y_cap then speck := "spec:top-exceeds-cap" :: !speck;
